@@ -80,6 +80,9 @@ fn do_disarm(a: &mut ArmState) {
 
 fn on_stdout(shared: &Shared, chunk: &[u8]) {
     let mut a = shared.arm.borrow_mut();
+    if std::env::var("PW_DEBUG").is_ok() {
+        eprintln!("on_stdout kind={:?} chunk={:?}", a.kind, String::from_utf8_lossy(chunk));
+    }
     if a.kind.is_some() {
         // order matters: a chunk normally carries a single marker because the
         // driver flushes right after printing each one.
